@@ -78,6 +78,8 @@ def timeNow : List String := ["node/pegnet/admin.go:markHeightSyncedVersion:time
 
 def packageVars : List String := ["fat/fat2/activations.go:Fat2RCDEActivation:uint32", "fat/fat2/pticker.go:validPTickerStrings:[]string", "fat/fat2/pticker.go:validPTickers:func", "fat/fat2/transaction.go:coinbase:factom.FsAddress", "node/average.go:AveragePeriod:uint64", "node/average.go:AverageRequired:AveragePeriod / 2", "node/burns.go:BurnAddress:\"EC2BURNFCT2PEGNETooo1oooo1oooo1oooo1oooo1oooo19wthin\"", "node/burns.go:BurnRCD:[32]byte", "node/burns.go:GlobalBurnAddress:\"FA2BURNBABYBURNoooooooooooooooooooooooooooooooDGvNXy\"", "node/burns.go:GlobalMintAddress:\"FA3j16WPCiqsAFHVZcEoL85Khh5RhPCNe6PWHBKgUxrx8MAnbNoy\"", "node/burns.go:GlobalOldBurnAddress:\"FA1y5ZGuHSLmf2TqNf6hVMkPiNGyQpQDTFJvDLRkKQaoPo4bmbgu\"", "node/devs.go:DeveloperRewardAddreses:[]DevReward", "node/mint.go:MintTotalSupplyMap:[]MintSupply", "node/pegnet/addresses.go:addressSelectCols:``", "node/pegnet/addresses.go:snapshotMinSelectCols:``", "node/pegnet/admin.go:Hardforks:[]ForkEvent", "node/pegnet/admin.go:PegnetdSyncVersion:2", "node/pegnet/errors.go:InsufficientBalanceErr:errors.New", "node/pegnet/errors.go:InsufficientBalanceErrInt:int64", "node/pegnet/errors.go:PFCTOneWayError:errors.New", "node/pegnet/errors.go:PFCTOneWayErrorInt:int64", "node/pegnet/errors.go:PSMALLOneWayError:errors.New", "node/pegnet/errors.go:PSMALLOneWayErrorInt:int64", "node/pegnet/errors.go:ZeroRatesError:errors.New", "node/pegnet/errors.go:ZeroRatesErrorInt:int64", "srv/errors.go:ErrorAddressNotFound:jrpc.NewError", "srv/errors.go:ErrorInvalidTransaction:jrpc.NewError", "srv/errors.go:ErrorNoEC:jrpc.NewError", "srv/errors.go:ErrorNotFound:jrpc.NewError", "srv/errors.go:ErrorPendingDisabled:jrpc.NewError", "srv/errors.go:ErrorTokenNotFound:jrpc.NewError", "srv/errors.go:ErrorTokenSyncing:jrpc.NewError", "srv/errors.go:ErrorTransactionNotFound:jrpc.NewError", "srv/srv.go:srv:http.Server"]
 
+def uncheckedRowLoops : List String := ["node/pegnet/addresses.go:SelectAllBalances", "node/pegnet/addresses.go:SelectRichList", "node/pegnet/txhistory_util.go:turnRowsIntoHistoryTransactions", "node/pegnet/winners.go:SelectGraded", "node/pegnet/winners.go:SelectMinerDominance"]
+
 def sharedState : List String := ["node/average.go:GetPegNetRateAverages:node:LastAveragesHeight", "node/average.go:GetPegNetRateAverages:node:LastAverages", "node/average.go:GetPegNetRateAverages:node:LastAveragesData", "node/average.go:GetPegNetRateAverages:node:LastAveragesData", "node/average.go:GetPegNetRateAverages:node:LastAveragesHeight", "node/average.go:GetPegNetRateAverages:node:LastAverages", "node/average.go:GetPegNetRateAverages:node:LastAveragesHeight", "node/average.go:GetPegNetRateAverages:node:LastAveragesHeight", "node/average.go:GetPegNetRateAverages:node:LastAveragesHeight", "node/node.go:NewPegnetd:node:Synced", "node/sync.go:GetCurrentSync:node:Synced", "node/sync.go:DBlockSync:node:Synced", "node/sync.go:DBlockSync:node:Synced", "node/sync.go:DBlockSync:node:Synced", "node/sync.go:DBlockSync:node:Synced", "node/sync.go:DBlockSync:node:Synced", "node/sync.go:DBlockSync:node:Synced", "node/sync.go:DBlockSync:node:Synced", "node/sync.go:DBlockSync:node:Synced", "node/sync.go:DBlockSync:node:Synced", "node/sync.go:DBlockSync:node:Synced", "node/sync.go:DBlockSync:node:Synced", "node/sync.go:DBlockSync:node:Synced", "node/sync.go:DBlockSync:node:Synced", "node/sync.go:DBlockSync:node:Synced", "node/sync.go:DBlockSync:node:Synced", "node/sync.go:DBlockSync:node:Synced", "node/sync.go:DBlockSync:node:Synced", "node/sync.go:DBlockSync:node:Synced", "node/sync.go:DBlockSync:node:Synced", "node/sync.go:DBlockSync:node:Synced", "node/sync.go:DBlockSync:node:Synced", "node/sync.go:SyncBlock:node:Synced", "node/sync.go:SyncBlock:node:Synced", "srv/methods.go:getBank:srv:Synced", "srv/methods.go:getMiningDominance:srv:Synced", "srv/methods.go:getMiningDominance:srv:Synced", "srv/methods.go:getMiningDominance:srv:Synced", "srv/methods.go:rateAverages:srv:private:s.avgMu", "srv/methods.go:rateAverages:srv:private:s.avgMu", "srv/methods.go:rateAverages:srv:private:s.avgNode", "srv/methods.go:rateAverages:srv:new:node.Pegnetd{Pegnet: s.Node.Pegnet}", "srv/methods.go:rateAverages:srv:private:s.avgNode", "srv/methods.go:rateAverages:srv:call:s.avgNode.GetPegNetRateAverages", "srv/methods.go:rateAverages:srv:private:s.avgNode", "srv/methods.go:getGlobalRichList:srv:call:s.Node.GetCurrentSync", "srv/methods.go:getRichList:srv:call:s.Node.GetCurrentSync", "srv/methods.go:getPegnetRates:srv:Synced", "srv/methods.go:getSyncStatus:srv:call:s.Node.GetCurrentSync", "srv/methods.go:getSyncStatus:srv:call:s.Node.GetCurrentSync", "srv/methods.go:getGraded:srv:Synced"]
 
 def apiSharedState : List String := ["srv/methods.go:getBank:srv:Synced", "srv/methods.go:getMiningDominance:srv:Synced", "srv/methods.go:getMiningDominance:srv:Synced", "srv/methods.go:getMiningDominance:srv:Synced", "srv/methods.go:rateAverages:srv:private:s.avgMu", "srv/methods.go:rateAverages:srv:private:s.avgMu", "srv/methods.go:rateAverages:srv:private:s.avgNode", "srv/methods.go:rateAverages:srv:new:node.Pegnetd{Pegnet: s.Node.Pegnet}", "srv/methods.go:rateAverages:srv:private:s.avgNode", "srv/methods.go:rateAverages:srv:call:s.avgNode.GetPegNetRateAverages", "srv/methods.go:rateAverages:srv:private:s.avgNode", "srv/methods.go:getGlobalRichList:srv:call:s.Node.GetCurrentSync", "srv/methods.go:getRichList:srv:call:s.Node.GetCurrentSync", "srv/methods.go:getPegnetRates:srv:Synced", "srv/methods.go:getSyncStatus:srv:call:s.Node.GetCurrentSync", "srv/methods.go:getSyncStatus:srv:call:s.Node.GetCurrentSync", "srv/methods.go:getGraded:srv:Synced"]
